@@ -28,8 +28,9 @@ class C06(TreeCheck):
         n = 12 if tier == "quick" else 80
         out = []
         for i in range(n):
-            prog, meta = programs.g_kill(rng)
-            hide = rng.random() < 0.35
+            fam = {0: "branching", 1: "branching", 2: "already_shutting_down", 3: "already_shutting_down"}.get(i % 12)
+            prog, meta = programs.g_kill(rng, family=fam)
+            hide = rng.random() < 0.35 if i % 12 not in (0, 1) else True
             meta["hide_psutil"] = hide
             out.append({"program": prog, "config": {"hide_psutil": hide}, "meta": meta})
         return out
@@ -50,7 +51,7 @@ class C06(TreeCheck):
             return None
         m = case["meta"]
         oc = tuple(sorted({(f["done"]["state"] + ":" + (f["done"].get("exc") or {}).get("type", "")) if f["done"] else "pending" for f in F.futs.values()}))
-        return (m.get("kind"), m.get("depth"), m.get("via"), m.get("hide_psutil"), m.get("mode"), m.get("fn"), oc)
+        return (m.get("kind"), m.get("depth"), m.get("family"), m.get("via"), m.get("hide_psutil"), m.get("mode"), m.get("fn"), oc)
 
     def budget(self, tier):
         return 200 if tier == "quick" else 2400
